@@ -2,7 +2,7 @@ _EXEC = dict(
     name="host-execution + consecutive-run reports", harness="c12",
     make=["build/bin/c12", "build/gen/x86_forms.txt", "build/gen/c12_x86_extra.txt", "build/gen/a64_lists.txt"],
     quick=dict(cases=16000, max_size=100, workers=16, extra_args=["--reps=8", "--states=16"]),
-    thorough=dict(cases=160000, max_size=100, workers=16, extra_args=["--reps=48", "--states=48"], timeout=7200),
+    thorough=dict(cases=160000, max_size=100, workers=16, extra_args=["--reps=80", "--states=48"], timeout=7200),
 )
 _TABLEGEN = dict(
     name="tables vs ISA database (tablegen regeneration diff)", harness="c12", runner="custom", module="c12_tablegen", replay_match=r"tablegen-diff",
